@@ -121,7 +121,8 @@ Commit(pre, o, r) ==
     /\ fin'  = FALSE
     /\ hist' = Append(hist, [op |-> o, pre |-> pre, exp |-> r])
 
-\* constructor step
+\* constructor step (enabled in the initial state only; the guard nops = 0 is repeated in front of the quantifiers of
+\* every constructor action so that TLC does not enumerate constructor arguments in later states)
 Start(o) ==
     /\ nops = 0
     /\ kind' = o.kind
@@ -175,33 +176,33 @@ UnitSeqs == {us \in UNION {[1..k -> UnitSet] : k \in 0..MaxSegs} : UnitOk(us)}
 (* constructors *)
 
 CtorFromStrA ==
-    /\ "from_str" \in CtorNames
+    /\ nops = 0 /\ "from_str" \in CtorNames
     /\ \E k \in Kinds, t \in StartTexts : \E c \in CapsFor(k, BLen(t)) :
           Start([name |-> "from_str", kind |-> k, cap |-> c, t |-> t])
 
 \* (try_)alloc_fmt / (try_)alloc_fmt_mut for boxes (mut selects the _mut entry point), write! into a new string otherwise
 CtorFmtA ==
-    /\ "fmt" \in CtorNames
+    /\ nops = 0 /\ "fmt" \in CtorNames
     /\ \E k \in Kinds, f \in Fmts, m \in BOOLEAN, a \in Apis : \E c \in CapsFor(k, 0) :
           Start([name |-> "fmt", kind |-> k, cap |-> c, api |-> a, lit |-> f.lit, ps |-> f.ps, mut |-> m])
 
 CtorFromUtf8A ==
-    /\ "from_utf8" \in CtorNames
+    /\ nops = 0 /\ "from_utf8" \in CtorNames
     /\ \E k \in Kinds, ss \in SegSeqs : \E c \in CapsFor(k, Len(SegBytes(ss))) :
           Start([name |-> "from_utf8", kind |-> k, cap |-> c, segs |-> ss, bytes |-> SegBytes(ss)])
 
 CtorFromUtf8LossyA ==
-    /\ "from_utf8_lossy" \in CtorNames /\ "grow" \in Kinds
+    /\ nops = 0 /\ "from_utf8_lossy" \in CtorNames /\ "grow" \in Kinds
     /\ \E ss \in SegSeqs, a \in Apis :
           Start([name |-> "from_utf8_lossy", kind |-> "grow", cap |-> INF, api |-> a, segs |-> ss, bytes |-> SegBytes(ss)])
 
 CtorFromUtf16A ==
-    /\ "from_utf16" \in CtorNames /\ "grow" \in Kinds
+    /\ nops = 0 /\ "from_utf16" \in CtorNames /\ "grow" \in Kinds
     /\ \E us \in UnitSeqs, a \in Apis :
           Start([name |-> "from_utf16", kind |-> "grow", cap |-> INF, api |-> a, units |-> us, u16 |-> UnitSeq(us)])
 
 CtorFromUtf16LossyA ==
-    /\ "from_utf16_lossy" \in CtorNames /\ "grow" \in Kinds
+    /\ nops = 0 /\ "from_utf16_lossy" \in CtorNames /\ "grow" \in Kinds
     /\ \E us \in UnitSeqs, a \in Apis :
           Start([name |-> "from_utf16_lossy", kind |-> "grow", cap |-> INF, api |-> a, units |-> us, u16 |-> UnitSeq(us)])
 
